@@ -33,7 +33,7 @@ ASSUMPTIONS = [
 RULE = ('one evaluation (= one "program") = one HOL goal pushed through the real bridge; distinct = distinct goals the bridge accepted; non-trivial = accepted by the bridge '
         '(its validity was then decided independently)')
 EXPLANATION = 'bridge accepts => independent encoding must be valid; the second encoding differs exactly in the places the property names (nat guards, truncation, x/0, extensional equality)'
-BUDGET_S = {'quick': 240, 'thorough': 1500}
+BUDGET_S = {'quick': 240, 'thorough': 900}
 
 
 def bounds(tier):
